@@ -94,7 +94,7 @@ PEXT["_change_working_directory"] = None
 contract(
     D + "pushd_fn", "C16", shards=6, params=dict(dir_or_n=Union(NoneT, Str), cd=Bool, quiet=Bool), globals=G, config=CFG, returns=RES,
     externals=EXT, calls={"_change_working_directory": D + "_change_working_directory"},
-    requires={"in-step": SYNC, "size-limit-positive": "XSH.env['DIRSTACK_SIZE'] >= 1", "listing-suppressed": "quiet",
+    requires={"in-step": SYNC, "size-limit-positive": "XSH.env['DIRSTACK_SIZE'] >= 1",
               "home-expansion-is-identity-on-absolute-paths": "os.path.expanduser(XSH.env['PWD']) == XSH.env['PWD']",
               "stack-entries-are-absolute-paths": "forall(lambda k: os.path.abspath(os.path.join(XSH.env['PWD'], DIRSTACK[k])) == DIRSTACK[k], 0, len(DIRSTACK))"},
     modifies=["XSH.env['PWD']", "XSH.env['OLDPWD']", "DIRSTACK", "CWD"], emits=["chdir", "on_chdir"],
@@ -126,7 +126,7 @@ contract(
 contract(
     D + "popd_fn", "C16", shards=3, params=dict(nth=Union(NoneT, Str), cd=Bool, quiet=Bool), globals=G, config=CFG, returns=RES,
     externals=EXT, calls={"_change_working_directory": D + "_change_working_directory"},
-    requires={"in-step": SYNC, "listing-suppressed": "quiet"},
+    requires={"in-step": SYNC},
     modifies=["XSH.env['PWD']", "XSH.env['OLDPWD']", "DIRSTACK", "CWD"], emits=["chdir", "on_chdir"],
     locals={"new_pwd": Union(NoneT, Str)},
     let={"rc": "result[2]"},
@@ -305,3 +305,41 @@ for _c in BY_PROP["C16"]:
         _c.native_domain = _c16_domain("cd")
     elif q == "_change_working_directory":
         _c.replay = _c16_harness("_change_working_directory", ("newdir", "follow_symlinks"))
+
+
+# ---- `pushd d` followed by `popd` restores both the directory and the stack: with_pushd composes the two ------------------------------
+def _wp_yield(R, frame, val, ynode):
+    """with-contract: the body of `with with_pushd(d):` - hypothesis for the restore clause: it leaves $PWD, the process directory and the
+    stack as it found them (commands that cd elsewhere are outside the clause); it may raise anything"""
+    R.named_heaps["in-body"] = R.snapshot()
+    R.globals_snap = dict(R.globals_)
+    ch = R.choose(["resume", "throw-Exception", "throw-BaseException"], "yield")
+    if ch == "throw-Exception":
+        raise PyRaise(Exc("Exception", exact=False, tag="exception raised by the with-body"))
+    if ch == "throw-BaseException":
+        raise PyRaise(Exc("KeyboardInterrupt", exact=True, tag="KeyboardInterrupt in the with-body"))
+    return mk_none()
+
+
+_BACK = "XSH.env['PWD'] == old(XSH.env['PWD']) and CWD == old(CWD) and DIRSTACK == old(DIRSTACK)"
+_STILL = "XSH.env['PWD'] == %s and DIRSTACK == [old(XSH.env['PWD'])] + old(DIRSTACK)" % (TARGET % "d")
+RESTORED = "implies(len(old(DIRSTACK)) + 1 <= XSH.env['DIRSTACK_SIZE'], (%s) or (%s))" % (_BACK, _STILL)
+BACK_MEANS_ALL = ("implies(len(old(DIRSTACK)) + 1 <= XSH.env['DIRSTACK_SIZE'] and %s != old(XSH.env['PWD']) and CWD == old(CWD), %s)" % (TARGET % "d", _BACK))
+contract(
+    D + "with_pushd", "C16", params=dict(d=Str), globals=G, config=CFG, externals=EXT, hooks={"yield": _wp_yield},
+    calls={"pushd_fn": D + "pushd_fn", "popd_fn": D + "popd_fn"},
+    requires={"in-step": SYNC, "size-limit-positive": "XSH.env['DIRSTACK_SIZE'] >= 1",
+              "home-expansion-is-identity-on-absolute-paths": "os.path.expanduser(XSH.env['PWD']) == XSH.env['PWD']",
+              "stack-entries-are-absolute-paths": "forall(lambda k: os.path.abspath(os.path.join(XSH.env['PWD'], DIRSTACK[k])) == DIRSTACK[k], 0, len(DIRSTACK))",
+              "$PWD-is-an-absolute-path (joining it to anything gives itself)": "forall_str(lambda p: os.path.abspath(os.path.join(p, XSH.env['PWD'])) == XSH.env['PWD'])",
+              "the-target-is-a-directory": "os.path.isdir(d)"},
+    modifies=["XSH.env['PWD']", "XSH.env['OLDPWD']", "DIRSTACK", "CWD"], emits=["chdir", "on_chdir"],
+    raises={"BaseException+": True},
+    ensures={"in-step": SYNC, "pushd-d-then-popd-restores-the-directory-and-the-stack (or, when the way back fails, leaves exactly the pushed state - never a mixture)": RESTORED,
+             "once-the-process-is-back-in-the-old-directory-$PWD-and-the-stack-are-as-before-too": BACK_MEANS_ALL,
+             "the-way-back-is-attempted-exactly-once": "len(log('call:popd_fn')) == 1"},
+    ensures_exc={"in-step": SYNC, "a-failed-pushd-changes-nothing-and-an-exception-in-the-body-still-pops": RESTORED,
+                 "whatever-escapes-the-way-back-was-attempted-unless-nothing-was-pushed": "(%s) or len(log('call:popd_fn')) == 1" % _BACK},
+    assumptions=["the with-body leaves $PWD, the process directory and the stack as it found them (hypothesis of the restore clause)"],
+    from_property="`pushd d` followed by `popd` restores both the directory and the stack (with_pushd is exactly that pair around a body)",
+)
